@@ -3,12 +3,12 @@
    tied to the code by the C10 correspondence; an entries dict is an association list in dict order;
    the third component of the loader's result is the row-id dtype's itemsize (4 = uint32). *)
 From Coq Require Import ZArith List Bool.
-From Catii Require Import IIndex.Model IIndex.ModelFacts Indx.Bytes Indx.Layout Indx.Save Indx.Load Indx.RoundTrip Indx.Rebuild Indx.LoadWF.
+From Catii Require Import IIndex.Model IIndex.ModelFacts Indx.Bytes Indx.BytesFacts Indx.Layout Indx.Save Indx.Load Indx.RoundTrip Indx.Rebuild Indx.LoadWF.
 Import ListNotations.
 Open Scope Z_scope.
 
 Theorem le_roundtrip : forall w v, 0 <= v < 256 ^ Z.of_nat w -> le_decode w (le_encode w v) = v.
-Proof. exact Bytes.le_roundtrip. Qed.
+Proof. exact BytesFacts.le_roundtrip. Qed.
 Print Assumptions le_roundtrip.
 
 (* ok: uniform arity 1..255, coordinates and common in [0, 2^63), row ids in [0, 2^32), fewer than
